@@ -56,6 +56,15 @@ def vmp_run(L, mod, n, mat, nrows, ncols, a, rs, entry, rng, a_pad=0, fill=0xFF,
         extra = [D]
     if not (R.canaries_ok() and t2.canaries_ok() and pm.canaries_ok() and A.canaries_ok()):
         return None, "write outside the result, the scratch (*_tmp_bytes) or an operand"
+    # the prepared matrix is used a second time, into another result buffer with another scratch content: the same bytes
+    R2 = Buf(L.call("bytes_of_vec_znx_dft", mod, rs), off=off, fill=fill ^ 0x5A)
+    t2b = Buf(t2.nbytes, off=off, fill=fill ^ 0xA5)
+    if entry == "from_znx":
+        L.call("vmp_apply_dft", mod, R2, rs, A, a_size, a_sl, pm, nrows, ncols, t2b)
+    else:
+        L.call("vmp_apply_dft_to_dft", mod, R2, rs, extra[0], a_size, pm, nrows, ncols, t2b)
+    if not (R2.canaries_ok() and t2b.canaries_ok()) or not np.array_equal(R2.u8, R.u8):
+        return None, "a second application of the same prepared matrix to the same vector gives other bytes"
     if not (np.array_equal(pm.u8, pm0) and np.array_equal(M.u8, m0) and np.array_equal(A.u8, a0)):
         return None, "a source operand (matrix, prepared matrix or vector) was modified"
     G = Buf(L.call("bytes_of_vec_znx_big", mod, rs), off=off, fill=fill)
@@ -121,6 +130,10 @@ def drive_b(rec, part, count):
         n = rng.choice([2, 4, 8, 8, 16, 32])
         nrows, ncols = rng.randrange(1, 9), rng.randrange(1, 9)
         a_size, rs = rng.randrange(0, 11), rng.randrange(0, 11)
+        if it % 6 == 5:                      # beyond 8 rows / columns, sizes beyond the matrix, multiples of 8 against odd counts
+            nrows, ncols = rng.choice([8, 9, 12, 15, 16, 17]), rng.choice([1, 3, 7, 8, 9, 16, 17])
+            a_size, rs = rng.choice([nrows - 1, nrows, nrows + 1, nrows + 5]), rng.choice([ncols - 1, ncols, ncols + 1, ncols + 4])
+            n = rng.choice([2, 8, 16])
         mask = rng.choice([MASK_NONE, MASK_GENERIC])
         if (n, mask) not in mods:
             mods[(n, mask)] = L.module(n, FFT64, mask)
